@@ -38,8 +38,6 @@ ASSUMPTIONS = [
     "pyneqsys / scipy as installed in /venv; hooks are external wrappers, a missing hook target is a machinery failure",
 ]
 
-CHAINS = ["root-default", "solve-default", "root-lin", "root-loglin-cc", "root-log-rref", "roots", "stub",
-          "root-x0", "root-x0-loglin", "roots-x0"]
 
 
 # ------------------------------------------------------------------ running the real code
@@ -63,24 +61,52 @@ def _success(info):
         return bool(info[-1]["success"])
 
 
+BASE_CHAINS = ["root-default", "solve-default", "root-lin", "root-loglin-cc"]
+HOMOG_CHAINS = ["root-log-rref", "roots", "stub", "root-x0", "root-x0-loglin", "roots-x0",
+                "root-square", "root-linrel", "root-lintanh", "root-static", "root-log-rp", "root-lin-rp",
+                "root-tol", "root-array", "root-ddict", "root-reuse", "solve-varied", "solve-varied2", "roots-index"]
+SALT_CHAINS = ["root-x0", "root-log-rp", "root-tol", "root-array", "root-reuse", "root-ddict"]
+
+
 def _varied(names, c0, rng_val):
     j = rng_val % len(names)
     base = c0[j] if c0[j] > 0 else 1e-3
     return j, [base / 2, base / 4]
 
 
-def row_inits(names, c0, chain, rng_val):
+def _varied2(names, c0, rng_val):
+    j1 = rng_val % len(names)
+    j2 = (j1 + 1 + (rng_val // 7) % (len(names) - 1)) % len(names)
+    j1, j2 = sorted((j1, j2))
+    b1 = c0[j1] if c0[j1] > 0 else 1e-3
+    b2 = c0[j2] if c0[j2] > 0 else 1e-3
+    return (j1, [b1 / 2, b1 * 2]), (j2, [b2 / 2, b2 * 2])
+
+
+def row_inits(names, c0, guess, chain, rng_val):
     """the initial state each result row belongs to - known from what the harness itself passes in
     (never read back from the code under test)"""
-    if chain.startswith("roots"):
+    def with_(base, subst):
+        return [subst.get(t, c) for t, c in enumerate(base)]
+    if chain in ("roots", "roots-x0", "roots-index"):
         j, vals = _varied(names, c0, rng_val)
-        return [[v if t == j else c for t, c in enumerate(c0)] for v in vals]
+        return [with_(c0, {j: v}) for v in vals]
+    if chain == "solve-varied":
+        j, vals = _varied(names, c0, rng_val)
+        return [with_(c0, {j: v}) for v in (vals[0], vals[0] * 4)]
+    if chain == "solve-varied2":
+        (j1, v1), (j2, v2) = _varied2(names, c0, rng_val)
+        return [with_(c0, {j1: a, j2: b}) for a in v1 for b in v2]
+    if chain == "root-reuse":
+        return [list(c0), list(guess)]
     return [list(c0)]
 
 
 def _call(es, names, c0, guess, chain, rng_val):
     """returns list of rows: dict(x, ok, sane) in call order"""
+    import collections
     import numpy as np
+    from chempy import _eqsys
     from chempy._eqsys import NumSysLin, NumSysLog
     init = dict(zip(names, c0))
     x0 = np.array(guess, dtype=float)
@@ -99,15 +125,46 @@ def _call(es, names, c0, guess, chain, rng_val):
         return one(es.root(init, NumSys=(NumSysLog, NumSysLin), neqsys_type="conditional_chained"))
     if chain == "root-log-rref":
         return one(es.root(init, NumSys=(NumSysLog,), rref_equil=True, rref_preserv=True))
+    if chain == "root-log-rp":
+        return one(es.root(init, NumSys=(NumSysLog,), rref_preserv=True))
+    if chain == "root-lin-rp":
+        return one(es.root(init, NumSys=(NumSysLin,), rref_preserv=True))
+    if chain == "root-tol":
+        return one(es.root(init, tol=1e-12))
+    if chain in ("root-square", "root-linrel", "root-lintanh"):
+        NS = getattr(_eqsys, {"root-square": "NumSysSquare", "root-linrel": "NumSysLinRel",
+                              "root-lintanh": "NumSysLinTanh"}[chain])
+        return one(es.root(init, NumSys=(NS,)))
+    if chain == "root-static":
+        return one(es.root(init, neqsys_type="static_conditions"))
+    if chain == "root-array":         # initial concentrations as a plain array in substance order
+        return one(es.root(np.array(c0, dtype=float)))
+    if chain == "root-ddict":         # a defaultdict that omits the zero entries
+        return one(es.root(collections.defaultdict(float, {k: v for k, v in init.items() if v != 0})))
     if chain == "root-x0":            # explicit starting guess: another mixture of the same system
         return one(es.root(init, x0))
     if chain == "root-x0-loglin":
         return one(es.root(init, x0, NumSys=(NumSysLog, NumSysLin)))
-    if chain in ("roots", "roots-x0"):
+    if chain == "root-reuse":         # one prebuilt solver object used for two different problems
+        neqsys = es.get_neqsys("chained_conditional", NumSys=(NumSysLog,))
+        return one(es.root(init, neqsys=neqsys)) + one(es.root(dict(zip(names, guess)), neqsys=neqsys))
+    if chain in ("roots", "roots-x0", "roots-index"):
         j, vals = _varied(names, c0, rng_val)
         kw = {"x0": x0} if chain == "roots-x0" else {}
-        xs, infos, sanity = es.roots(init, vals, names[j], **kw)
+        if chain == "roots-index":    # varied substance by index, values as an array
+            xs, infos, sanity = es.roots(init, np.array(vals), j)
+        else:
+            xs, infos, sanity = es.roots(init, vals, names[j], **kw)
         return [dict(x=list(x), ok=_success(i), sane=bool(s)) for x, i, s in zip(xs, infos, sanity)]
+    if chain == "solve-varied":
+        j, vals = _varied(names, c0, rng_val)
+        r = es.solve(init, {names[j]: [vals[0], vals[0] * 4]})
+        return [dict(x=list(r.conc[i]), ok=bool(r.success[i]), sane=bool(r.sane[i])) for i in range(2)]
+    if chain == "solve-varied2":
+        (j1, v1), (j2, v2) = _varied2(names, c0, rng_val)
+        r = es.solve(init, {names[j1]: v1, names[j2]: v2})
+        return [dict(x=list(r.conc[a, b]), ok=bool(r.success[a, b]), sane=bool(r.sane[a, b]))
+                for a in range(2) for b in range(2)]
     if chain == "stub":
         return one(es.root(init, NumSys=(_stub_class(),)))
     raise ValueError(chain)
@@ -138,7 +195,9 @@ def run_problem(job):
     ks = [ec.dec_float(k) for k in inp["K"]]
     c0 = [ec.dec_float(v) for v in inp["c0"]]
     guess = [ec.dec_float(v) for v in inp.get("guess", inp["c0"])]
-    es, names = ec.build_system(inp["species"], inp["nu"], ks)
+    # species by explicit composition or by formula (the names are formulae of the same composition)
+    spform = "formula" if (rng_val // 3) % 2 else "comp"
+    es, names = ec.build_system(inp["species"], inp["nu"], ks, spform=spform)
     ns = len(names)
     rec.install()
     rec.start()
@@ -158,7 +217,7 @@ def run_problem(job):
         elif segs:
             segs[-1].append(e)
     out = []
-    inits = row_inits(names, c0, chain, rng_val)
+    inits = row_inits(names, c0, guess, chain, rng_val)
     if exc is not None and not segs:
         segs = [[{"ev": "row"}]]
     if len(segs) > len(inits):
@@ -175,7 +234,7 @@ def run_problem(job):
         lnk = [int(round(math.log(k) * 1e6)) for k in ks]
         tr = [{"ev": "problem", "rs": inp["rids"], "lnK": lnk, "c0": c0enc, "sexp": s_exp}] + body
         meta = dict(chain=chain, rids=inp["rids"], cls=case["cls"], K=inp["K"], c0=[float("%.6g" % v) for v in c0row],
-                    wellcond=bool(case["exp"]["wellcond"]), clipped=clipped, row=idx)
+                    wellcond=bool(case["exp"]["wellcond"]), clipped=clipped, row=idx, spform=spform)
         failed = exc is not None and (rows is None or idx >= len(rows))
         if failed:
             meta.update(exc=exc, ok=False, sane=False)
@@ -252,16 +311,15 @@ def _judge(ctx, items, cfg="EqSolveTrace.cfg"):
 
 def _plan(ctx, cases):
     """stratified choice of problems and the chains each is run under"""
-    n = 220 if ctx.quick else 2600
+    n = 150 if ctx.quick else 2200
     sel = ctx.pick(cases, n)
     jobs = []
     for c in sel:
         homog = c["exp"]["homog"]
-        chains = ["root-default", "solve-default", "root-lin", "root-loglin-cc"]
-        if homog:
-            chains += ["root-log-rref", "roots", "stub", "root-x0", "root-x0-loglin", "roots-x0"]
-        else:
-            chains += ["root-x0"]
+        chains = list(BASE_CHAINS)
+        extra = list(HOMOG_CHAINS if homog else SALT_CHAINS)
+        ctx.rng.shuffle(extra)
+        chains += extra[:4] if ctx.quick else extra[:10]
         for ch in chains:
             jobs.append((c, ch, ctx.rng.randrange(1 << 30)))
     # more well-conditioned problems for the success-rate tally (default chains only)
@@ -282,8 +340,8 @@ def run(ctx):
 
     # ---- TLC: the switching machine with an ideal solver (model checking)
     res = ctx.tlc("EqSolve_MC", "EqSolve_MC_switch.cfg",
-                  require_actions=["GenPose", "GenBegin", "GenEvalFw", "GenEvalBw", "Adopt", "GenSolve", "Terminate",
-                                   "GenReport"],
+                  require_actions=() if ctx.quick else ["GenPose", "GenBegin", "GenEvalFw", "GenEvalBw", "Adopt",
+                                                        "GenSolve", "Terminate", "GenReport"],
                   require_cases=100, timeout=900)
     kinds = collections.Counter(c["cls"] for c in res.cases)
     if not kinds["model-precipitate"] or not kinds["model-dissolved"]:
